@@ -54,7 +54,19 @@ def run_mutant(m, scale, workers):
         out = p.stdout + p.stderr
         viol = [ln for ln in out.splitlines() if ln.startswith("VIOLATION")]
         status = "CAUGHT" if p.returncode == 1 and viol else ("HARNESS" if p.returncode == 2 else "MISSED")
-        return {"id": m["id"], "prop": m["prop"], "status": status, "rc": p.returncode,
+        replay_ok = None
+        if status == "CAUGHT":
+            # the minimised replay file must fail the same way, with the same digest, in a fresh process
+            import re
+
+            mm = re.search(r"replay=(\S+)", viol[0])
+            if mm and os.path.exists(mm.group(1)):
+                rp = subprocess.run([os.path.join(core.VERIF_DIR, "bin", "check"), "--replay", mm.group(1)],
+                                    env=env, capture_output=True, text=True, timeout=900)
+                replay_ok = rp.returncode == 1 and "digest_match=True" in rp.stdout and "VIOLATION" in rp.stdout
+                if not replay_ok:
+                    status = "REPLAY-MISMATCH"
+        return {"id": m["id"], "prop": m["prop"], "status": status, "rc": p.returncode, "replay_reproduced": replay_ok,
                 "detail": (viol[0][:260] if viol else out[-400:]), "wall": round(time.time() - t0, 1)}
     except subprocess.TimeoutExpired:
         return {"id": m["id"], "prop": m["prop"], "status": "TIMEOUT", "detail": "", "wall": round(time.time() - t0, 1)}
